@@ -498,6 +498,7 @@ def k4(ctx, fx, A):
                 if is_field(m, "claims") and common._outcome_root(peel_to_call(m.kids[0])) is node:
                     read.add(const_value(n2.kids[1]))
     written = set()
+    verb_seen = set()
     typ_written = False
     hfns = [fx.view(n) for n in fx.fns if n.startswith("holder::SDJWTHolder::")]
     hash_ok = False
@@ -509,6 +510,17 @@ def k4(ctx, fx, A):
                 cv = const_value(n2.kids[1])
                 if isinstance(cv, str):
                     written.add(cv)
+                    if cv in ("aud", "nonce") and (f.name, cv) not in verb_seen:
+                        # what the holder writes is what its caller passed: the verifier compares the claim with the expected value
+                        # exactly (K2 b / d are verbatim on its side), so a trimmed / case-folded copy makes honest presentations fail
+                        verb_seen.add((f.name, cv))
+                        nv = common.not_verbatim(n2.kids[2], lambda x: x.kind == "param")
+                        roots = [x for x in walk(n2.kids[2]) if x.kind == "param"]
+                        if nv is not None:
+                            ctx.finding("C04.K4", f, "kb-%s-verbatim" % cv, "the holder writes a transformed copy of the caller's %s into the KB-JWT (%s): the verifier compares exactly, so an honest "
+                                        "key-bound presentation whose %s the transformation changes is rejected" % (cv, nv.d["term"].get("name"), cv), line=t2.get("line"))
+                        elif roots:
+                            ctx.ok("C04.K4", f, "kb-%s-verbatim" % cv, "the KB-JWT `%s` is the caller's argument, unchanged" % cv, line=t2.get("line"))
                     if cv == "sd_hash":
                         v = n2.kids[2]
                         hs = [x for x in walk(v) if x.kind == "call" and (x.d["term"].get("resolved") or "") == "utils::base64_hash"]
